@@ -17,6 +17,11 @@ class Builder:
             raise Unsupported(f'struct {name} not found in sources')
         names = [f[2:] if f.startswith('r#') else f for f in order]
         given = {k.rstrip('_'): v for k, v in fields.items()}
+        # `opt_<member>=value`: supplied only when the struct has that member (lets a kernel follow a benign layout change)
+        for k in [k for k in given if k.startswith('opt_')]:
+            v = given.pop(k)
+            if k[4:] in names:
+                given[k[4:]] = v
         if set(given) != set(names):
             raise Unsupported(f'struct {name}: fields in source {names} != fields the check provides {sorted(given)}')
         return Agg(None, [given[n] for n in names], name.split('::')[-1])
